@@ -262,6 +262,138 @@ def impls(src, traits=None):
         yield trait, rhs, lhs, f.group(2), body[f.end() - 1:e], line
 
 
+GROUP_ITER_FILES = ['src/ark_curve/element/projective.rs', 'src/ark_curve/element/affine.rs', 'src/min_curve/element.rs']
+
+
+class GroupIter:
+    """`impl Sum<…> for Element` and `Element::vartime_multiscalar_mul` on denotations: an iterator is the list of what it yields,
+    `into_iter()` / `iter()` / `borrow()` / `clone()` are the identity, `zip` is `List.zip` (the shorter side decides, as in Rust),
+    `fold(init, f)` is `List.foldl`; `Self::zero()`, `Element::default()`, `Self::IDENTITY` denote 0; `+` and `Add::add` the group
+    sum, `scalar * point` (either order) the scalar multiple — the operator forms they resolve to are in the lists above
+    (assume-guarantee over the forwarding graph)."""
+
+    def ev(self, e, env):
+        k = e[0]
+        if k == 'path':
+            if e[1] in env:
+                return env[e[1]]
+            if re.fullmatch(r'(Self|Element)::(IDENTITY|ZERO)', e[1]):
+                return ('0', 'g')
+            if e[1].endswith('Add::add'):
+                return ('+', 'op')
+            raise Untranslatable('name %s' % e[1])
+        if k == 'un' and e[1] in ('&', '*'):
+            return self.ev(e[2], env)
+        if k == 'paren':
+            return self.ev(e[1], env)
+        if k == 'block':
+            return self.block(e[1], env)
+        if k == 'call' and e[1][0] == 'path' and not e[2] and re.fullmatch(r'(Self|Element)::(zero|default)', e[1][1]):
+            return ('0', 'g')
+        if k == 'bin':
+            (a, ta), (b, tb) = self.ev(e[2], env), self.ev(e[3], env)
+            if e[1] == '+' and ta == tb == 'g':
+                return ('(%s + %s)' % (a, b), 'g')
+            if e[1] == '*' and {ta, tb} == {'g', 'k'}:
+                return ('(%s • %s)' % ((a, b) if ta == 'k' else (b, a)), 'g')
+            raise Untranslatable('operator %s on %s, %s' % (e[1], ta, tb))
+        if k == 'method':
+            v, t = self.ev(e[1], env)
+            name, margs = e[2], e[3]
+            if name in ('into_iter', 'iter', 'borrow', 'clone', 'copied', 'cloned') and not margs:
+                return (v, t)
+            if name == 'zip' and t == 'klist' and len(margs) == 1:
+                w, tw = self.ev(margs[0], env)
+                if tw == 'glist':
+                    return ('(%s.zip %s)' % (v, w), 'kglist')
+            if name == 'fold' and t == 'glist' and len(margs) == 2:
+                init, f = self.ev(margs[0], env), margs[1]
+                if init[1] != 'g':
+                    raise Untranslatable('fold from %s' % init[1])
+                if f[0] == 'closure2' and len(f[1]) == 2:
+                    body = self.body(f[2], dict(env, **{f[1][0]: (f[1][0], 'g'), f[1][1]: (f[1][1], 'g')}))
+                    return ('(%s.foldl (fun %s %s => %s) %s)' % (v, f[1][0], f[1][1], body, init[0]), 'g')
+                fv = self.ev(f, env)
+                if fv == ('+', 'op'):
+                    return ('(%s.foldl (fun x y => x + y) %s)' % (v, init[0]), 'g')
+                raise Untranslatable('fold function')
+            if name == 'fold' and t == 'kglist' and len(margs) == 2 and margs[1][0] == 'closure2' and len(margs[1][1]) == 3:
+                init = self.ev(margs[0], env)
+                acc, sc, pt = margs[1][1]
+                if init[1] != 'g':
+                    raise Untranslatable('fold from %s' % init[1])
+                body = self.body(margs[1][2], dict(env, **{acc: (acc, 'g'), sc: ('sp.1', 'k'), pt: ('sp.2', 'g')}))
+                return ('(%s.foldl (fun %s sp => %s) %s)' % (v, acc, body, init[0]), 'g')
+            raise Untranslatable('method .%s on %s' % (name, t))
+        raise Untranslatable('expression %s' % k)
+
+    def body(self, b, env):
+        v, t = self.block(b[1], env) if b[0] == 'block' else self.ev(b, env)
+        if t != 'g':
+            raise Untranslatable('closure result %s' % t)
+        return v
+
+    def block(self, stmts, env):
+        env = dict(env)
+        for i, st in enumerate(stmts):
+            if st[0] == 'let' and st[1][0] == 'pname' and st[2] is not None:
+                env[st[1][1]] = self.ev(st[2], env)
+            elif st[0] == 'expr' and i == len(stmts) - 1:
+                return self.ev(st[1], env)
+            else:
+                raise Untranslatable('statement %s' % st[0])
+        raise Untranslatable('no value')
+
+
+def group_iter_forms(repo, report):
+    from extract_fieldfns import FParser
+    gsum, msm = [], []
+    for rel in GROUP_ITER_FILES:
+        try:
+            src = open(os.path.join(repo, rel)).read()
+        except OSError as ex:
+            report['untranslated'].append('%s: %s' % (rel, ex))
+            continue
+        src = src.split('#[cfg(test)]')[0]
+        found = []
+        for m in re.finditer(r'\bimpl\b[^{;]*\bSum\s*<([^{]*)>\s+for\s+(Element|AffinePoint)\s*\{', src):
+            found.append(('sum', m, 'Sum<%s> for %s' % (re.sub(r'\s+', ' ', m.group(1)), m.group(2))))
+        for m in re.finditer(r'\bpub\s+fn\s+vartime_multiscalar_mul\b', src):
+            found.append(('msm', m, 'vartime_multiscalar_mul'))
+        for kind, m, what in found:
+            label = '%s:%d %s' % (rel, src[:m.start()].count('\n') + 1, what)
+            try:
+                if kind == 'sum':
+                    f = re.compile(r'\bfn\s+sum\b[^(]*\(\s*(?:mut\s+)?(\w+)\s*:[^)]*\)[^{]*\{').search(src, m.end())
+                    names = [f.group(1)] if f else None
+                else:
+                    f = re.compile(r'\(\s*(?:mut\s+)?(\w+)\s*:\s*I\s*,\s*(?:mut\s+)?(\w+)\s*:\s*J\s*,?\s*\)[^{]*\{').search(src, m.end())
+                    names = [f.group(1), f.group(2)] if f else None
+                if not f:
+                    raise Untranslatable('signature')
+                depth, j = 1, f.end()
+                while depth:
+                    depth += src[j] == '{'
+                    depth -= src[j] == '}'
+                    j += 1
+                stmts = FParser(tokenize(src[f.end() - 1:j])).block()
+                if kind == 'sum':
+                    v, t = GroupIter().block(stmts, {names[0]: ('l', 'glist')})
+                    if t != 'g':
+                        raise Untranslatable('result %s' % t)
+                    gsum.append((label, 'fun l => %s' % v))
+                else:
+                    v, t = GroupIter().block(stmts, {names[0]: ('ss', 'klist'), names[1]: ('ps', 'glist')})
+                    if t != 'g':
+                        raise Untranslatable('result %s' % t)
+                    msm.append((label, 'fun ss ps => %s' % v))
+                report['forms'].setdefault(rel, {}).setdefault(kind, 0)
+                report['forms'][rel][kind] += 1
+            except (Untranslatable, IndexError, KeyError, TypeError) as ex:
+                report['untranslated'].append('%s: %s' % (label, ex))
+    return gsum, msm
+
+
 def main():
     repo, out = sys.argv[1], sys.argv[2]
     lists = {'add': [], 'sub': [], 'neg': [], 'mul': []}
@@ -391,6 +523,15 @@ def main():
         parts.append('def %sForms : List (String × (%s)) := [' % (op, ty[op]))
         parts.append(',\n'.join('  ("%s", %s)' % (l.replace('"', "'").replace('\\', ''), f) for l, f in lists[op]))
         parts.append(']\n')
+    gsum, msm = group_iter_forms(repo, report)
+    parts.append('/-- `impl Sum<…> for Element`: the list the iterator yields ↦ the result -/')
+    parts.append('def gsumForms : List (String × (List G → G)) := [')
+    parts.append(',\n'.join('  ("%s", %s)' % (l.replace('"', "'").replace('\\', ''), f) for l, f in gsum))
+    parts.append(']\n')
+    parts.append('/-- `Element::vartime_multiscalar_mul`: scalars, points ↦ the result -/')
+    parts.append('def msmForms : List (String × (List ℕ → List G → G)) := [')
+    parts.append(',\n'.join('  ("%s", %s)' % (l.replace('"', "'").replace('\\', ''), f) for l, f in msm))
+    parts.append(']\n')
     parts.append('end Gen.OpForms\n\nnamespace Gen.FieldOpForms\nvariable {K : Type} [Field K]\n')
     fty = {'add': 'K → K → K', 'sub': 'K → K → K', 'mul': 'K → K → K', 'div': 'K → K → K', 'neg': 'K → K', 'sum': 'List K → K', 'prod': 'List K → K'}
     for op in ('add', 'sub', 'mul', 'div', 'neg', 'sum', 'prod'):
@@ -425,6 +566,7 @@ def main():
     if old != text:
         open(out, 'w').write(text)
     report['counts'] = {op: len(v) for op, v in lists.items()}
+    report['counts'].update(gsum=len(gsum), msm=len(msm))
     report['field_counts'] = {op: len(v) for op, v in flists.items()}
     report['field_counts']['from_int'] = len(intforms)
     json.dump(report, open(os.path.splitext(out)[0] + '.index.json', 'w'), indent=1, sort_keys=True)
